@@ -954,7 +954,7 @@ SPEC = {
                   "invariant wf_node at every node (an invariant of the semantic actions), hence its default copy prints "
                   "the same text and is == to it; (4) C11_copy_partial: when the parser dropped / re-spelled no text "
                   "(C01's guard) the printed copy IS the query and re-parses to the very same tree; "
-                  "(5) C11_copy/aht_modulo_lexing: using the any-table layout independence of the LR driver (C03a), copy "
+                  "(5) C11_copy_partial / C11_aht_partial: using the any-table layout independence of the LR driver (C03a), copy "
                   "and auto_head_tail satisfy the statement whenever their printed result lexes to the query's tokens; "
                   "auto_head_tail never raises on a parsed query; (6) C11_resolve_no_unknown_partial: on a query without "
                   "implicit operation the resolver (every target, Lucene mode, any add_head) is the default copy, hence "
